@@ -52,12 +52,12 @@ type nhBundle struct {
 }
 
 type nhTrack struct {
-	Accepted   bool
-	AcceptedAt time.Time
-	Refused    bool
-	OKPeers    map[string]bool // peers with a successful transmission
-	Prev       string          // previous node named when the bundle was received
-	ID         bpv7.BundleID   // the ID under which the node holds it
+	Accepted    bool
+	AcceptedAt  time.Time
+	Refused     bool
+	OKPeers     map[string]bool // peers with a successful transmission
+	Prev        string          // previous node named when the bundle was received
+	ID          bpv7.BundleID   // the ID under which the node holds it
 	AgeAtAccept uint64
 }
 
@@ -73,11 +73,11 @@ type nhStep struct {
 }
 
 type nhRun struct {
-	n      *nhNode
-	sc     nhScenario
-	tr     []*nhTrack
-	steps  []nhStep
-	bobj   []bpv7.Bundle
+	n     *nhNode
+	sc    nhScenario
+	tr    []*nhTrack
+	steps []nhStep
+	bobj  []bpv7.Bundle
 }
 
 func newNhRun(sc nhScenario) (*nhRun, error) {
@@ -261,13 +261,21 @@ func (r *nhRun) key() string {
 	}
 	r.n.mu.Unlock()
 	sort.Strings(outs)
-	return strings.Join(parts, ";") + "|up=" + strings.Join(r.n.connectedPeers(), ",") + "|" + strings.Join(outs, ",")
+	// clock bucket: elapsed virtual time relative to the thresholds the alphabet can cross
+	el := vtime.Now().Sub(VNow)
+	bucket := 0
+	for _, th := range []time.Duration{time.Second, 30 * time.Minute, time.Hour, 2 * time.Hour} {
+		if el >= th {
+			bucket++
+		}
+	}
+	return strings.Join(parts, ";") + "|up=" + strings.Join(r.n.connectedPeers(), ",") + "|" + strings.Join(outs, ",") + fmt.Sprintf("|t%d", bucket)
 }
 
 type nhTask struct {
-	Check    string     `json:"check"`
-	Scenario int        `json:"scenario"`
-	Events   []nhEvent  `json:"events"`
+	Check    string    `json:"check"`
+	Scenario int       `json:"scenario"`
+	Events   []nhEvent `json:"events"`
 }
 
 type nhResult struct {
